@@ -211,7 +211,8 @@ class SimSocket:
         if self.accepts:
             a = self.accepts[self.acc_i % len(self.accepts)]
             self.acc_i += 1
-            n = max(1, min(n, a)) if len(data) else 0
+            # (a pattern entry 0 = this write accepts nothing; entries are otherwise clamped to 1..len)
+            n = (0 if a == 0 else max(1, min(n, a))) if len(data) else 0
         self.sent += data[:n]
         self.log.append(("send", bytes(data[:n]), n))
         return n
